@@ -143,7 +143,7 @@ class EventDict(dict, metaclass=MetaEventDict):
             value = self[key]
             if isinstance(value, types.FunctionType):
                 return value(self)
-            elif isinstance(value, tuple):
+            elif type(value) is tuple:  # Not Scale or other subclasses.
                 return arrayed_param(value)
             else:
                 return value
